@@ -56,8 +56,14 @@ BUILTIN_FORBIDDEN = {"exec", "eval", "compile", "globals", "locals", "setattr", 
 NP_VIEW = {"asarray", "asanyarray", "ascontiguousarray", "asfortranarray", "ravel", "reshape", "squeeze", "transpose", "atleast_1d",
            "atleast_2d", "atleast_3d", "real", "imag", "diagonal", "broadcast_to", "broadcast_arrays", "expand_dims", "swapaxes",
            "moveaxis", "rollaxis", "array_split", "split", "hsplit", "vsplit", "dsplit", "nan_to_num", "require", "frombuffer",
-           "lib", "nditer", "flatiter", "ndindex", "meshgrid", "ix_", "take_along_axis", "compress", "asmatrix", "mat", "view"}
+           "lib", "nditer", "flatiter", "ndindex", "meshgrid", "ix_", "take_along_axis", "compress", "asmatrix", "mat", "view", "as_strided", "sliding_window_view"}
 NP_MUTATE_FIRST = {"put", "place", "copyto", "fill_diagonal", "putmask", "put_along_axis", "shuffle"}
+NP_UFUNC_BINARY = {"add", "subtract", "multiply", "divide", "true_divide", "floor_divide", "power", "float_power", "mod", "remainder", "fmod",
+                   "maximum", "minimum", "fmax", "fmin", "arctan2", "hypot", "dot", "matmul", "logical_and", "logical_or", "logical_xor",
+                   "bitwise_and", "bitwise_or", "bitwise_xor", "greater", "less", "equal", "not_equal", "copysign", "outer", "cross_out"}
+NP_UFUNC_UNARY = {"sqrt", "square", "exp", "exp2", "expm1", "log", "log2", "log10", "log1p", "abs", "absolute", "fabs", "negative", "positive",
+                  "conj", "conjugate", "rint", "floor", "ceil", "trunc", "sin", "cos", "tan", "arcsin", "arccos", "arctan", "sinh", "cosh",
+                  "tanh", "sign", "reciprocal", "cbrt", "logical_not", "invert", "isnan", "isfinite", "isinf", "deg2rad", "rad2deg"}
 NP_WRITE = {"save", "savetxt", "savez", "savez_compressed"}
 NP_GLOBAL = {"set_printoptions", "seterr", "seterrcall", "setbufsize", "set_string_function"}
 
@@ -468,6 +474,13 @@ class Walker:
                 if last in NP_MUTATE_FIRST and per:
                     self.mutate_all(per[0], e)
                 return set()
+            if "ndarray" in chain[:-1] or "DataFrame" in chain[:-1]:
+                # unbound-method form np.ndarray.sort(x): same effect as x.sort()
+                if last in M_MUTATE or last in M_STORE:
+                    if per:
+                        self.mutate_all(per[0], e)
+                    return set()
+                return s
             if last == "at" and len(chain) >= 2:
                 if per:
                     self.mutate_all(per[0], e)
@@ -476,6 +489,17 @@ class Walker:
                 if per:
                     self.mutate_all(per[0], e)
                 return set()
+            if last == "nan_to_num" and self.kw_false(e, "copy"):
+                if per:
+                    self.mutate_all(per[0], e)
+                return s
+            # positional `out` of ufuncs / dot / matmul
+            if last in NP_UFUNC_BINARY and len(per) >= 3:
+                self.mutate_all(per[2], e)
+                return per[2]
+            if last in NP_UFUNC_UNARY and len(per) >= 2:
+                self.mutate_all(per[1], e)
+                return per[1]
             if last in NP_WRITE:
                 for v in sorted(set().union(*per[1:2]) if len(per) > 1 else set()):
                     self.emit("write", v, (), e)
